@@ -241,7 +241,8 @@ def gen_case(seed, tier, index=0):
         cfgs = [f["path"] for f in files if f["path"].endswith(("REUSE.toml", "dep5"))]
         faults, muts, kinds = [], [], []
         for _ in range(rng.randint(1, 3)):
-            k = rng.wpick([(5, "file"), (3 if cfgs else 0, "config"), (2, "dir"), (1 if glob_kind == "dep5" else 0, "dep5-worker"), (1, "licenses"), (2, "stat")])
+            k = rng.wpick([(5, "file"), (3 if cfgs else 0, "config"), (2, "dir"), (1 if glob_kind == "dep5" else 0, "dep5-worker"), (1, "licenses"), (2, "stat"),
+                           (3, "gone-before-check"), (2 if glob_kind == "dep5" else 0, "dep5-gone-after-parse")])
             if k == "file":
                 t = rng.pick(covered)
                 kind = rng.pick(["EACCES", "ENOENT", "EIO", "EISDIR", "vanish", "to_dir", "ELOOP", "EMFILE"])
@@ -274,6 +275,20 @@ def gen_case(seed, tier, index=0):
                 else:
                     faults.append({"op": "scandir", "path": d, "errno": kind, "nth": rng.pick([None, 1, 2])})
                 kinds.append("dir:" + kind)
+            elif k == "gone-before-check":
+                # the file disappears (or turns into a directory) after it was listed but before the tool looks at it:
+                # while a sibling is being read (serial), or between enumeration and the first task (pool)
+                t = rng.pick(covered)
+                sib = rng.pick([c for c in covered if c != t] or [t])
+                do = {"op": rng.pick(["delete", "to_dir"]), "path": t}
+                muts.append({"at": {"op": "open-r", "path": sib, "nth": 1}, "do": do, "maybe": t})
+                muts.append({"at": {"point": "after_enum"}, "do": do, "maybe": t})
+                kinds.append("file:gone-before-check")
+            elif k == "dep5-gone-after-parse":
+                # .reuse/dep5 is removed after the parent parsed it and before a worker re-parses it
+                muts.append({"at": {"point": "after_enum"}, "do": {"op": "delete", "path": ".reuse/dep5"}})
+                muts.append({"at": {"op": "open-r", "path": rng.pick(covered), "nth": 1}, "do": {"op": "delete", "path": ".reuse/dep5"}})
+                kinds.append("dep5-gone-after-parse")
             elif k == "stat":
                 # entries of a directory that can be listed but not searched (mode r--): stat() is denied
                 d = rng.pick(["src", "src/core", "docs"])
@@ -283,6 +298,9 @@ def gen_case(seed, tier, index=0):
             elif k == "licenses":
                 faults.append({"op": "scandir", "path": "LICENSES", "errno": "EACCES"})
                 kinds.append("dir:LICENSES-EACCES")
+        if rng.chance(0.2):
+            case["fifo"] = "src/named_pipe"
+            kinds.append("fifo-in-tree")
         case.update(trigger="faults:" + "+".join(sorted(set(kinds))))
         cmds = rng.sample(READONLY + [["download", "--all"]], 3)
         extra = {"faults": faults, "mutations": muts, "readdir_key": rng.randrange(1 << 30)}
@@ -293,6 +311,8 @@ def gen_case(seed, tier, index=0):
     else:
         case_git = None
     case["world"] = {"files": files}
+    if case.get("fifo"):
+        case["world"]["fifos"] = [case["fifo"]]
     if case_git:
         case["world"]["git"] = case_git
     case["variants"] = variants
@@ -368,7 +388,10 @@ def _fault_oracle(case, st, rec, cmd, code):
         re_ = {posixpath.normpath(p)[len("$B/p/"):] if posixpath.normpath(p).startswith("$B/p/") else posixpath.normpath(p) for p in d["non_compliant"]["read_errors"]}
         faulted = {f.get("target") for f in (st.get("faults") or []) + (st.get("mutations") or [])
                    if f.get("target") and (f.get("path") or f.get("do", {}).get("path")) in fired_paths}
+        maybe = {f.get("maybe") for f in (st.get("mutations") or []) if f.get("maybe")}
         for p in case.get("covered", []):
+            if p in maybe:
+                continue  # may have been processed before or after it disappeared: any outcome but a crash is fine
             if p in faulted:
                 ok = p in re_ or (p in files and (not files[p]["copyrights"] or not files[p]["spdx_expressions"]))
                 if not ok:
